@@ -112,7 +112,36 @@ def traceTo (q : Quirks) : Cfg → Sched → List Json
     | some c' => cfgJson c' :: traceTo q c' rest
     | none => [.str (S "not enabled")]
 
+/-- run the schedule, leaving out the operations that are not enabled: (configuration, how many were left out) -/
+def runSkipping (q : Quirks) : Cfg → Sched → Nat → Cfg × Nat
+  | c, [], n => (c, n)
+  | c, (op, cut) :: rest, n =>
+    match step q c op cut with
+    | some c' => runSkipping q c' rest n
+    | none => runSkipping q c rest (n + 1)
+
+def answer (q : Quirks) (c : Cfg) (skipped : Nat) : String :=
+  let c' := drain q 4000 c
+  let o := observe c'
+  "ok\t" ++ js (.obj [(S "sync", .bool true), (S "terminal", .bool o.terminal), (S "notes", .num (Int.ofNat o.notes)),
+    (S "resent", nats o.resent), (S "pendingUnsent", nats o.pendingUnsent), (S "pendingLost", nats o.pendingLost),
+    (S "quiet", .bool o.quiet), (S "requests", .num (Int.ofNat c'.sent.length)),
+    (S "diverged", .bool c'.diverged), (S "failed", .bool (c'.failed > 0)), (S "skipped", .num (Int.ofNat skipped)),
+    (S "heldEvents", nats ((c'.evq.filter (·.unacked)).map (·.id))),
+    (S "joins", .num (Int.ofNat c'.joins.length))])
+
 def handle : List String → String
+  | ["runl", quirks, skeleton, schedule] =>
+    -- what the protocol with these switches does under (as much as it has of) this schedule
+    match rd skeleton, rd schedule with
+    | some (.arr items), some (.arr ops) =>
+      match skOf 400 items, ops.mapM opOf with
+      | some sk, some sched =>
+        let q := quirksOf quirks
+        let r := runSkipping q (init sk) sched 0
+        answer q r.1 r.2
+      | _, _ => "unsupported"
+    | _, _ => "unsupported"
   | ["trace", quirks, skeleton, schedule] =>
     match rd skeleton, rd schedule with
     | some (.arr items), some (.arr ops) =>
@@ -128,15 +157,7 @@ def handle : List String → String
         let q := quirksOf quirks
         match runTo q (init sk) sched 0 with
         | (_, some i) => "ok\t" ++ js (.obj [(S "sync", .bool false), (S "at", .num (Int.ofNat i))])
-        | (c, none) =>
-          let c' := drain q 4000 c
-          let o := observe c'
-          "ok\t" ++ js (.obj [(S "sync", .bool true), (S "terminal", .bool o.terminal), (S "notes", .num (Int.ofNat o.notes)),
-            (S "resent", nats o.resent), (S "pendingUnsent", nats o.pendingUnsent), (S "pendingLost", nats o.pendingLost),
-            (S "quiet", .bool o.quiet), (S "requests", .num (Int.ofNat c'.sent.length)),
-            (S "diverged", .bool c'.diverged), (S "failed", .bool (c'.failed > 0)),
-            (S "heldEvents", nats ((c'.evq.filter (·.unacked)).map (·.id))),
-            (S "joins", .num (Int.ofNat c'.joins.length))])
+        | (c, none) => answer q c 0
       | _, _ => "unsupported"
     | _, _ => "unsupported"
   | _ => "bad-op"
